@@ -37,7 +37,7 @@ def run(out, info, tier, seed):
         'theorem premise static_ok (shape facts; the ancestors table dominates every trigger path) is checked per scenario by comparing the model-built tables with the implementation, not yet discharged by a closure theorem']
     out.assumptions = ['simulators are an oracle: any reply sequence (event list); delays that are compared have equal shape (convex group scenarios)']
     sched_check.sched_property(out, info, tier, seed, 'C10', KINDS, monitors.P_C10, gen_opts=GEN_OPTS, case_gen=case_gen,
-                               ncases=(110, 1500), variants=[(True, True), (True, False)], nontrivial=nontrivial, features=features,
+                               ncases=(220, 2000), variants=[(True, True), (True, False)], nontrivial=nontrivial, features=features,
                                known_match=None, hyp=None,
                                extra_obligations=[('Sched.Inv (invariant preserved by every event)', 'Sched/Inv'),
                                                   ('Sched.Guards / Sched.Final', 'Sched/Final')])
